@@ -74,6 +74,9 @@ Proof.
 Qed.
 
 (* ================================================================== strptime, with boolean tests *)
+Lemma some_pair_inj {A B} (a a':A) (b b':B) : Some (a, b) = Some (a', b') -> a = a' /\ b = b'.
+Proof. intros H. inversion H. auto. Qed.
+
 Definition cond2 (a b:Z) : bool :=
   ((a =? 49) && (48 <=? b) && (b <=? 50)) || ((a =? 48) && (49 <=? b) && (b <=? 57)).
 Definition cond1 (a:Z) : bool := (49 <=? a) && (a <=? 57).
@@ -106,7 +109,6 @@ Definition pd (r':list Z) : option (Z * list Z) :=
 Definition yval (y0 y1 y2 y3:Z) : Z := ((dval y0 * 10 + dval y1) * 10 + dval y2) * 10 + dval y3.
 
 Definition strptime_b (v:list Z) : res (Z * Z * Z) :=
-  if existsb (fun b => 128 <=? b) v then Raise E_ValueError else
   match v with
   | y0 :: y1 :: y2 :: y3 :: s :: r =>
     if (s =? 45) && (is_digit y0 && is_digit y1 && is_digit y2 && is_digit y3) then
@@ -127,17 +129,91 @@ Ltac z45 s :=
   destruct s as [|s|s]; try reflexivity;
   do 6 (try (destruct s as [s|s|]; try reflexivity)).
 
-Lemma strptime_ymd_b v : strptime_ymd v = strptime_b v.
+Lemma sp_month_pm r : sp_month r = pm r.
 Proof.
-  unfold strptime_ymd, strptime_b. destruct (existsb (fun b => 128 <=? b) v); [reflexivity|].
-  destruct v as [|y0 [|y1 [|y2 [|y3 [|s r]]]]]; try reflexivity.
-  z45 s.
-  (* s = 45 *)
-  cbn [Z.eqb Pos.eqb andb].
-  destruct (is_digit y0 && is_digit y1 && is_digit y2 && is_digit y3); [|reflexivity].
-  destruct r as [|a [|b [|s r']]]; try reflexivity.
+  unfold sp_month, pm, cond1, cond2. destruct r as [|a [|b [|s r']]]; try reflexivity.
   - z45 b.
   - z45 s; z45 b.
+Qed.
+
+(* ---- ASCII text: decoding is the identity, \d is [0-9] ---- *)
+Lemma ascii_cons x l : ascii (x :: l) = true <-> 0 <= x < 128 /\ ascii l = true.
+Proof. unfold ascii. cbn [forallb]. rewrite andb_true_iff. split; intros [H1 H2]; split; try assumption; lia. Qed.
+
+Lemma ascii_app a b : ascii (a ++ b) = ascii a && ascii b.
+Proof. apply forallb_app. Qed.
+
+Lemma decode_ascii v : ascii v = true -> decode_utf8 v = Some v.
+Proof.
+  induction v as [|x v IH]; intros H; [reflexivity|]. apply ascii_cons in H. destruct H as [Hx Hv].
+  cbn [decode_utf8]. replace ((0 <=? x) && (x <? 128)) with true by lia. rewrite (IH Hv). reflexivity.
+Qed.
+
+Lemma find_none {A} (f:A -> bool) l : (forall z, In z l -> f z = false) -> find f l = None.
+Proof.
+  induction l as [|h l IH]; intros H; [reflexivity|]. cbn [find]. rewrite (H h (or_introl eq_refl)).
+  apply IH. intros z Hz. apply H. right. exact Hz.
+Qed.
+
+Lemma nd_zero_ascii x : 0 <= x < 128 -> nd_zero x = if is_digit x then Some 48 else None.
+Proof.
+  intros Hx. unfold nd_zero. change ND_ZEROS with (48 :: tl ND_ZEROS).
+  remember (tl ND_ZEROS) as T eqn:ET. cbn [find]. unfold is_digit.
+  destruct ((48 <=? x) && (x <=? 57)) eqn:E.
+  - replace ((48 <=? x) && (x <? 48 + 10)) with true by lia. reflexivity.
+  - replace ((48 <=? x) && (x <? 48 + 10)) with false by lia.
+    apply find_none. intros z Hz.
+    assert (Hbig : 128 <= z).
+    { revert z Hz. apply Forall_forall. subst T. unfold ND_ZEROS, tl.
+      repeat (apply Forall_cons; [lia|]). apply Forall_nil. }
+    lia.
+Qed.
+
+Lemma is_digit_u_ascii x : 0 <= x < 128 -> is_digit_u x = is_digit x.
+Proof. intros H. unfold is_digit_u. rewrite nd_zero_ascii by exact H. destruct (is_digit x); reflexivity. Qed.
+
+Lemma dval_u_digit x : is_digit x = true -> dval_u x = dval x.
+Proof.
+  intros H. unfold dval_u, dval. rewrite nd_zero_ascii by (unfold is_digit in H; lia). rewrite H. reflexivity.
+Qed.
+
+Lemma sp_day_pd r' : ascii r' = true -> sp_day r' = pd r'.
+Proof.
+  intros H. unfold sp_day, pd. destruct r' as [|a [|b t']]; try reflexivity.
+  apply ascii_cons in H. destruct H as [_ H]. apply ascii_cons in H. destruct H as [Hb _].
+  rewrite is_digit_u_ascii by exact Hb.
+  destruct (is_digit b) eqn:D; [rewrite (dval_u_digit b D); reflexivity|].
+  rewrite !andb_false_r. reflexivity.
+Qed.
+
+Lemma pm_suffix r m r' : pm r = Some (m, r') -> exists pre, r = pre ++ r'.
+Proof.
+  unfold pm. destruct r as [|a [|b [|s r0]]]; try discriminate.
+  - destruct (b =? 45); [|discriminate]. destruct (cond1 a); [|discriminate].
+    intros H. apply some_pair_inj in H. destruct H as [_ <-]. exists [a; b]. reflexivity.
+  - destruct (s =? 45).
+    + destruct (cond2 a b); [|discriminate]. intros H. apply some_pair_inj in H. destruct H as [_ <-].
+      exists [a; b; s]. reflexivity.
+    + destruct (b =? 45); [|discriminate]. destruct (cond1 a); [|discriminate].
+      intros H. apply some_pair_inj in H. destruct H as [_ <-]. exists [a; b]. reflexivity.
+Qed.
+
+Lemma strptime_ymd_b v : ascii v = true -> strptime_ymd v = strptime_b v.
+Proof.
+  intros Ha. unfold strptime_ymd. rewrite (decode_ascii v Ha). unfold strptime_cps, strptime_b.
+  destruct v as [|y0 [|y1 [|y2 [|y3 [|s r]]]]]; try reflexivity.
+  apply ascii_cons in Ha. destruct Ha as [A0 Ha]. apply ascii_cons in Ha. destruct Ha as [A1 Ha].
+  apply ascii_cons in Ha. destruct Ha as [A2 Ha]. apply ascii_cons in Ha. destruct Ha as [A3 Ha].
+  apply ascii_cons in Ha. destruct Ha as [_ Ha].
+  rewrite !is_digit_u_ascii by assumption.
+  z45 s.
+  cbn [Z.eqb Pos.eqb andb].
+  destruct (is_digit y0) eqn:D0; [|reflexivity]. destruct (is_digit y1) eqn:D1; [|reflexivity].
+  destruct (is_digit y2) eqn:D2; [|reflexivity]. destruct (is_digit y3) eqn:D3; [|reflexivity]. cbn [andb].
+  rewrite !dval_u_digit by assumption. rewrite sp_month_pm.
+  destruct (pm r) as [[m r']|] eqn:Em; [|reflexivity].
+  destruct (pm_suffix r m r' Em) as [pre Er]. rewrite Er, ascii_app in Ha. apply andb_prop in Ha.
+  rewrite sp_day_pd by apply Ha. reflexivity.
 Qed.
 
 (* ================================================================== digits *)
@@ -199,18 +275,21 @@ Proof.
   destruct (pd dt) as [[d' [|? ?]]|]; try discriminate. f_equal. f_equal. lia.
 Qed.
 
-Lemma month_texts_low m mt : 1 <= m <= 12 -> In mt (month_texts m) -> existsb (fun b => 128 <=? b) mt = false.
+Lemma ascii_digit v : (0 <=? digit v) && (digit v <? 128) = true.
+Proof. pose proof (digit_range v). lia. Qed.
+
+Lemma month_texts_ascii m mt : In mt (month_texts m) -> ascii mt = true.
 Proof.
-  intros Hm Hin. unfold month_texts, d2 in Hin. destruct (m <? 10); cbn [In] in Hin.
-  - destruct Hin as [<-|[<-|[]]]; cbn [existsb]; rewrite ?not_high_digit; reflexivity.
-  - destruct Hin as [<-|[]]; cbn [existsb]; rewrite ?not_high_digit; reflexivity.
+  intros Hin. unfold month_texts, d2 in Hin. destruct (m <? 10); cbn [In] in Hin.
+  - destruct Hin as [<-|[<-|[]]]; unfold ascii; cbn [forallb]; rewrite ?ascii_digit; reflexivity.
+  - destruct Hin as [<-|[]]; unfold ascii; cbn [forallb]; rewrite ?ascii_digit; reflexivity.
 Qed.
 
-Lemma day_texts_low d dt : In dt (day_texts d) -> existsb (fun b => 128 <=? b) dt = false.
+Lemma day_texts_ascii d dt : In dt (day_texts d) -> ascii dt = true.
 Proof.
   intros Hin. unfold day_texts, d2 in Hin. destruct (d <? 10); cbn [In] in Hin.
-  - destruct Hin as [<-|[<-|[<-|[]]]]; cbn [existsb]; rewrite ?not_high_digit; reflexivity.
-  - destruct Hin as [<-|[]]; cbn [existsb]; rewrite ?not_high_digit; reflexivity.
+  - destruct Hin as [<-|[<-|[<-|[]]]]; unfold ascii; cbn [forallb]; rewrite ?ascii_digit; reflexivity.
+  - destruct Hin as [<-|[]]; unfold ascii; cbn [forallb]; rewrite ?ascii_digit; reflexivity.
 Qed.
 
 Lemma in_date_texts y m d t :
@@ -222,14 +301,20 @@ Proof.
   - intros [mt [dt [Hm [Hd E]]]]. exists mt. split; [exact Hm|]. apply in_map_iff. exists dt. auto.
 Qed.
 
+Lemma date_texts_ascii y m d t : In t (date_texts y m d) -> ascii t = true.
+Proof.
+  intros Hin. apply in_date_texts in Hin. destruct Hin as [mt [dt [Hmt [Hdt ->]]]].
+  rewrite !ascii_app, (month_texts_ascii m mt Hmt), (day_texts_ascii d dt Hdt).
+  unfold d4, ascii. cbn [forallb]. rewrite !ascii_digit. reflexivity.
+Qed.
+
 (* every text of a date is read back as that date *)
 Lemma strptime_texts y m d t : 0 <= y <= 9999 -> 1 <= m <= 12 -> 1 <= d <= 31 ->
   In t (date_texts y m d) -> strptime_ymd t = Ok (y, m, d).
 Proof.
-  intros Hy Hm Hd Hin. apply in_date_texts in Hin. destruct Hin as [mt [dt [Hmt [Hdt ->]]]].
-  rewrite strptime_ymd_b. unfold strptime_b.
-  rewrite !existsb_app, (month_texts_low m mt Hm Hmt), (day_texts_low d dt Hdt).
-  unfold d4. cbn [existsb app]. rewrite !not_high_digit. cbn [orb Z.leb Z.compare Pos.compare Pos.compare_cont].
+  intros Hy Hm Hd Hin. rewrite strptime_ymd_b by (eapply date_texts_ascii; exact Hin).
+  apply in_date_texts in Hin. destruct Hin as [mt [dt [Hmt [Hdt ->]]]].
+  unfold strptime_b, d4. cbn [app].
   rewrite !digit_is_digit. cbn [Z.eqb Pos.eqb andb].
   rewrite (pm_texts m mt dt Hm Hmt (day_texts_head d dt Hdt)), (pd_texts d dt Hd Hdt), yval_d4 by exact Hy. reflexivity.
 Qed.
@@ -252,9 +337,6 @@ Proof.
       replace (a - 48 <? 10) with true by lia. right. left. f_equal. lia.
 Qed.
 
-Lemma some_pair_inj {A B} (a a':A) (b b':B) : Some (a, b) = Some (a', b') -> a = a' /\ b = b'.
-Proof. intros H. inversion H. auto. Qed.
-
 Lemma pd_inv r' d : pd r' = Some (d, []) -> In r' (day_texts d) /\ 1 <= d <= 31.
 Proof.
   unfold pd, day_texts, d2, digit, dval, is_digit.
@@ -274,11 +356,10 @@ Proof.
     right. right. left. repeat f_equal; lia.
 Qed.
 
-Lemma strptime_inv t y m d : strptime_ymd t = Ok (y, m, d) ->
+Lemma strptime_inv t y m d : ascii t = true -> strptime_ymd t = Ok (y, m, d) ->
   0 <= y <= 9999 /\ 1 <= m <= 12 /\ 1 <= d <= 31 /\ In t (date_texts y m d).
 Proof.
-  rewrite strptime_ymd_b. unfold strptime_b.
-  destruct (existsb (fun b => 128 <=? b) t); [discriminate|].
+  intros Ha. rewrite strptime_ymd_b by exact Ha. unfold strptime_b.
   destruct t as [|y0 [|y1 [|y2 [|y3 [|s r]]]]]; try discriminate.
   destruct (s =? 45) eqn:Es; [|discriminate]. cbn [andb].
   destruct (is_digit y0) eqn:D0; [|discriminate]. destruct (is_digit y1) eqn:D1; [|discriminate].
@@ -293,14 +374,19 @@ Proof.
   rewrite E4, Er. cbn [app]. repeat f_equal. lia.
 Qed.
 
+Ltac z45r s :=
+  destruct s as [|s|s]; try (right; reflexivity);
+  do 6 (try (destruct s as [s|s|]; try (right; reflexivity))).
+
+(* on every byte string: a date or ValueError (UnicodeDecodeError is one) *)
 Lemma strptime_res t : (exists r, strptime_ymd t = Ok r) \/ strptime_ymd t = Raise E_ValueError.
 Proof.
-  rewrite strptime_ymd_b. unfold strptime_b.
-  destruct (existsb (fun b => 128 <=? b) t); [right; reflexivity|].
-  destruct t as [|y0 [|y1 [|y2 [|y3 [|s r]]]]]; try (right; reflexivity).
-  destruct ((s =? 45) && (is_digit y0 && is_digit y1 && is_digit y2 && is_digit y3)); [|right; reflexivity].
-  destruct (pm r) as [[m' r']|]; [|right; reflexivity].
-  destruct (pd r') as [[d' [|? ?]]|]; try (right; reflexivity). left. eexists. reflexivity.
+  unfold strptime_ymd. destruct (decode_utf8 t) as [v|]; [|right; reflexivity]. unfold strptime_cps.
+  destruct v as [|y0 [|y1 [|y2 [|y3 [|s r]]]]]; try (right; reflexivity).
+  z45r s.
+  destruct (is_digit_u y0 && is_digit_u y1 && is_digit_u y2 && is_digit_u y3); [|right; reflexivity].
+  destruct (sp_month r) as [[m' r']|]; [|right; reflexivity].
+  destruct (sp_day r') as [[d' [|? ?]]|]; try (right; reflexivity). left. eexists. reflexivity.
 Qed.
 
 (* ================================================================== the stored instant *)
@@ -326,12 +412,26 @@ Proof.
 Qed.
 
 (* ================================================================== one cell *)
-Theorem date_cell_table_proof cell : date_cell_spec cell (date_row cell).
+Lemma ascii_strip cell : ascii cell = true -> ascii (strip cell) = true.
 Proof.
+  intros H. rewrite strip_trimw. destruct (trimw_decomp is_ws cell) as [w1 [core [w2 [Hc [_ [_ [-> _]]]]]]].
+  rewrite Hc, !ascii_app in H. apply andb_prop in H. destruct H as [_ H]. apply andb_prop in H. apply H.
+Qed.
+
+Lemma date_row_res cell : (exists r, date_row cell = Ok r) \/ date_row cell = Raise E_ValueError.
+Proof.
+  unfold date_row. destruct (strip cell) as [|z l]; [left; eexists; reflexivity|].
+  destruct (strptime_res (z :: l)) as [[[[y m] d] Ep]|Ep]; rewrite Ep; cbn [bind]; [|right; reflexivity].
+  rewrite datetime_us_date. destruct (date_ok y m d); cbn [bind]; [left; eexists; reflexivity|right; reflexivity].
+Qed.
+
+Theorem date_cell_table_proof cell : ascii cell = true -> date_cell_spec cell (date_row cell).
+Proof.
+  intros Hascii. apply ascii_strip in Hascii.
   unfold date_row. destruct (strip cell) as [|z l] eqn:Es.
   - apply DC_blank. exact Es.
   - destruct (strptime_res (z :: l)) as [[[[y m] d] Ep]|Ep]; rewrite Ep; cbn [bind].
-    + destruct (strptime_inv _ _ _ _ Ep) as [Hy [Hm [Hd Hin]]].
+    + destruct (strptime_inv _ _ _ _ Hascii Ep) as [Hy [Hm [Hd Hin]]].
       rewrite datetime_us_date. destruct (date_ok y m d) eqn:Eok; cbn [bind].
       * rewrite <- Es in *. apply DC_date; assumption.
       * apply DC_bad; [rewrite Es; discriminate|].
@@ -431,11 +531,6 @@ Proof.
 Qed.
 
 (* a cell that is neither blank nor a text of a valid civil date makes the import raise ValueError *)
-Lemma date_row_res cell : (exists r, date_row cell = Ok r) \/ date_row cell = Raise E_ValueError.
-Proof.
-  destruct (date_cell_table_proof cell); [left; eexists; reflexivity|left; eexists; reflexivity|right; reflexivity].
-Qed.
-
 Lemma map_res_raise {A B} (f:A -> res B) e l x :
   (forall y, In y l -> (exists r, f y = Ok r) \/ f y = Raise e) -> In x l -> f x = Raise e ->
   map_res f l = Raise e.
@@ -447,14 +542,14 @@ Proof.
 Qed.
 
 Theorem date_invalid_raises_proof cc cell off slack tail : 0 <= off ->
-  In cell (concat cc) -> strip cell <> [] ->
+  In cell (concat cc) -> ascii cell = true -> strip cell <> [] ->
   (forall y m d, date_ok y m d = true -> ~ In (strip cell) (date_texts y m d)) ->
   date_import (map (mk_chunk off slack tail) cc) = Raise E_ValueError.
 Proof.
-  intros Ho Hin Hne Hbad. rewrite date_chunk_independent_proof by exact Ho.
+  intros Ho Hin Hascii Hne Hbad. rewrite date_chunk_independent_proof by exact Ho.
   rewrite (map_res_raise date_row E_ValueError (concat cc) cell); [reflexivity| |exact Hin|].
   - intros y _. apply date_row_res.
-  - pose proof (date_cell_table_proof cell) as S.
+  - pose proof (date_cell_table_proof cell Hascii) as S.
     pose proof (date_cell_spec_deterministic_proof cell _ _ S (DC_bad cell Hne Hbad)) as E. exact E.
 Qed.
 
@@ -499,8 +594,21 @@ Lemma midnight_epoch : midnight_us 1970 1 1 = 0.
 Proof. reflexivity. Qed.
 
 (* the hypotheses of date_invalid_raises, from a computed run of the model *)
-Lemma date_bad_of_run cell : date_row cell = Raise E_ValueError ->
+Lemma date_bad_of_run cell : ascii cell = true -> date_row cell = Raise E_ValueError ->
   strip cell <> [] /\ forall y m d, date_ok y m d = true -> ~ In (strip cell) (date_texts y m d).
 Proof.
-  intros H. pose proof (date_cell_table_proof cell) as S. rewrite H in S. inversion S. split; assumption.
+  intros Ha H. pose proof (date_cell_table_proof cell Ha) as S. rewrite H in S. inversion S. split; assumption.
+Qed.
+
+(* outside the ASCII domain: the year and the second digit of the day are matched by \d, which accepts every
+   decimal digit of Unicode; such a text is no printing of any date, yet it is imported *)
+Definition arabic_indic_2020_01_05 : list Z := [217; 162; 217; 160; 217; 162; 217; 160; 45; 48; 49; 45; 48; 53].
+
+Lemma date_unicode_digits :
+  ascii arabic_indic_2020_01_05 = false /\
+  (forall y m d, ~ In (strip arabic_indic_2020_01_05) (date_texts y m d)) /\
+  date_row arabic_indic_2020_01_05 = Ok (midnight_us 2020 1 5, [217; 162; 217; 160; 217; 162; 217; 160; 45; 48], 1).
+Proof.
+  split; [reflexivity|]. split; [|vm_compute; reflexivity].
+  intros y m d Hin. apply date_texts_ascii in Hin. vm_compute in Hin. discriminate.
 Qed.
